@@ -1096,6 +1096,73 @@ def exhaustive_small_sets(ctx, g):
     ctx.case("exhaustive-small-sets", True)
 
 
+def empty_and_default_operands(ctx, g):
+    """EMPTINESS: the non-mutating operators with an EMPTY owning set on the left (a fresh owner, and one emptied by clear / pop / discard
+    of its last member) or on the right, against operands of every form -- a plain set, a frozenset, another owner's live collection,
+    an empty set.  The result is a NEW plain set with the built-in's contents: never the operand itself (editing the result edits
+    nothing else), never an owning collection, and nobody's ownership changes."""
+    def owners():
+        m1, m2 = g.Module(name="m1"), g.Module(name="m2")
+        sec1, sec2 = g.Section(name="s1", module=m1), g.Section(name="s2", module=m2)
+        bi1, bi2 = g.ByteInterval(size=8, section=sec1), g.ByteInterval(size=8, section=sec2)
+        return [("Module.sections", lambda: g.Module(name="e"), "sections", lambda: g.Section(name="x"), m2.sections, [sec2]),
+                ("Module.symbols", lambda: g.Module(name="e"), "symbols", lambda: g.Symbol("x"), None, []),
+                ("Module.proxies", lambda: g.Module(name="e"), "proxies", lambda: g.ProxyBlock(), None, []),
+                ("Section.byte_intervals", lambda: g.Section(name="e"), "byte_intervals", lambda: g.ByteInterval(size=4), sec2.byte_intervals, [bi2]),
+                ("ByteInterval.blocks", lambda: g.ByteInterval(size=8), "blocks", lambda: g.CodeBlock(size=1, offset=0), None, [])]
+    import operator as op
+    OPS = [("|", op.or_), ("&", op.and_), ("-", op.sub), ("^", op.xor)]
+    for cname, mk_owner, attr, mk_elem, live, live_members in owners():
+        for emptied_by in ("fresh", "clear", "pop", "discard"):
+            owner = mk_owner()
+            coll = getattr(owner, attr)
+            if emptied_by != "fresh":
+                e0 = mk_elem()
+                coll.add(e0)
+                {"clear": coll.clear, "pop": coll.pop, "discard": lambda: coll.discard(e0)}[emptied_by]()
+            free = [mk_elem(), mk_elem()]
+            if live is None:
+                other_owner = mk_owner()
+                lm = [mk_elem()]
+                getattr(other_owner, attr).update(lm)
+                lv = getattr(other_owner, attr)
+            else:
+                lv, lm = live, live_members
+            operands = [("a plain set", set(free), free), ("a frozenset", frozenset(free), free), ("an empty set", set(), []),
+                        ("another owner's live collection", lv, list(lm))]
+            for oname, operand, members in operands:
+                for sym, f in OPS:
+                    for side in ("left", "right"):
+                        ctx.count("empty_operand_cases")
+                        desc = ("%s emptied by %s: %s" % (cname, emptied_by, ("coll %s %s" % (sym, oname)) if side == "left" else ("%s %s coll" % (oname, sym))))
+                        before = list(members)
+                        try:
+                            r = f(coll, operand) if side == "left" else f(operand, coll)
+                        except Exception as e:  # noqa: BLE001
+                            ctx.add("oracle", "not-like-builtin:empty-operand", "%s raised %s" % (desc, exc_name(g, e)), {"case": desc})
+                            continue
+                        want = f(set(), set(map(id, members))) if side == "left" else f(set(map(id, members)), set())
+                        bad = None
+                        if r is operand or r is coll:
+                            bad = "the result IS %s (editing it edits that)" % ("the operand" if r is operand else "the collection")
+                        elif isinstance(r, g.util.SetWrapper) or not isinstance(r, (set, frozenset)):
+                            bad = "the result is a %s, not a plain set" % type(r).__name__
+                        elif set(map(id, r)) != want:
+                            bad = "the result has %d elements, the built-in's %d" % (len(r), len(want))
+                        elif side == "left" and type(r) is not set:
+                            bad = "the result is a %s; with the collection on the left it is a plain set" % type(r).__name__
+                        if bad is None and isinstance(r, set):
+                            r.clear()              # the caller does what it likes with a value it was given
+                            if set(map(id, operand)) != set(map(id, before)) or len(coll) != 0:
+                                bad = "emptying the result changed the operand (%d members, were %d)" % (len(operand), len(before))
+                            elif oname.startswith("another") and any(getattr(x, world.PARENT_ATTR[type(x).__name__ if type(x).__name__ in world.PARENT_ATTR else "CodeBlock"]) is None for x in before):
+                                bad = "emptying the result detached the members of the other owner"
+                        ctx.case("empty-operand:" + desc, True)
+                        if bad:
+                            ctx.add("oracle", "not-like-builtin:empty-operand", "%s: %s" % (desc, bad), {"case": desc})
+                            break
+
+
 def whole_collection_arguments(ctx, g):
     """'Move everything from there to here': a bulk operation is handed ANOTHER owner's live collection (or the receiver's own) as
     its argument.  What the built-in does with a snapshot of the argument is what must happen: every element arrives (in order, for
@@ -1216,6 +1283,7 @@ def run(ctx):
         ctx.case(repr(h.items), True)
     d4_stream(ctx, g)
     whole_collection_arguments(ctx, g)
+    empty_and_default_operands(ctx, g)
     # members replaced by their equal-UUID twins of another load through the list interface (item / slice assignment, append,
     # remove): contents, UUID tables and the exceptions of later calls against Model/TwinCache.v
     import twinleg
